@@ -107,6 +107,28 @@ var frontEnds = []frontEnd{
 		return v, nil, err
 	}},
 	{"sen.Parser(veteran).Parse", false, func(d []byte) (any, []cmpx.Event, error) { v, err := vet.SenParser().Parse(d); return v, nil, err }},
+	// ... whose last calls passed a number conversion option, or were ended by a reader error or a
+	// panicking callback with containers open
+	{"oj.Parser(after option).Parse", false, func(d []byte) (any, []cmpx.Event, error) { v, err := vet.OjParserAfterOption().Parse(d); return v, nil, err }},
+	{"oj.Parser(after option).ParseReader", false, func(d []byte) (any, []cmpx.Event, error) {
+		v, err := vet.OjParserAfterOption().ParseReader(bytes.NewReader(d))
+		return v, nil, err
+	}},
+	{"sen.Parser(after option).Parse", false, func(d []byte) (any, []cmpx.Event, error) { v, err := vet.SenParserAfterOption().Parse(d); return v, nil, err }},
+	{"sen.Parser(after option).ParseReader", false, func(d []byte) (any, []cmpx.Event, error) {
+		v, err := vet.SenParserAfterOption().ParseReader(bytes.NewReader(d))
+		return v, nil, err
+	}},
+	{"oj.Parser(after abort).Parse", false, func(d []byte) (any, []cmpx.Event, error) { v, err := vet.OjParserAfterAbort().Parse(d); return v, nil, err }},
+	{"gen.Parser(after abort).Parse", false, func(d []byte) (any, []cmpx.Event, error) { v, err := vet.GenParserAfterAbort().Parse(d); return v, nil, err }},
+	{"gen.Parser(after abort).ParseReader", false, func(d []byte) (any, []cmpx.Event, error) {
+		v, err := vet.GenParserAfterAbort().ParseReader(bytes.NewReader(d))
+		return v, nil, err
+	}},
+	{"sen.Parser(after abort).ParseReader", false, func(d []byte) (any, []cmpx.Event, error) {
+		v, err := vet.SenParserAfterAbort().ParseReader(bytes.NewReader(d))
+		return v, nil, err
+	}},
 	{"oj.Tokenizer(veteran).Load/1", true, func(d []byte) (any, []cmpx.Event, error) {
 		r := &cmpx.Recorder{}
 		err := vet.OjTokenizer().Load(iotest.OneByteReader(bytes.NewReader(d)), r)
